@@ -426,6 +426,11 @@ def c08_case(ctx, book, case_seed):
             for f in glob.glob(base + '.*'):
                 if not f.endswith('.xlsx'):
                     os.remove(f)
+    except ValueError as exc:
+        if 'no outputs are dependant on it' not in str(exc):
+            raise
+        ctx.count('real_book_trim_refused')        # an input that none of the chosen outputs depends on
+        return
     except Exception as exc:
         if not wb.raised_outside_harness(exc):
             raise
